@@ -33,7 +33,7 @@ func genG17Wiring(repo string, w *Out) error {
 			src := hf.Src(ce)
 			sel, isSel := ce.Fun.(*ast.SelectorExpr)
 			switch {
-			case isSel && sel.Sel.Name == "Match" && (strings.Contains(hf.Src(sel.X), "Domains") || fd.Name.Name == "denyDomains"):
+			case isSel && sel.Sel.Name == "Match" && (strings.Contains(hf.Src(sel.X), "Domains") || g17MatcherParam(hf, fd, sel.X)):
 				wiring = append(wiring, fd.Name.Name+": "+src)
 			case strings.HasPrefix(src, "hp.denyDomains(") || strings.HasPrefix(src, "hp.directDomains("):
 				wiring = append(wiring, fd.Name.Name+": "+src)
@@ -41,30 +41,38 @@ func genG17Wiring(repo string, w *Out) error {
 			return true
 		})
 	}
-	// helper functions of http_proxy.go applied to the name before it reaches Match (e.g. asciiHostname)
-	helpers := map[string]bool{}
+	// top-level helper functions of http_proxy.go reached from the three users of the lists (transitively)
+	top := map[string]*ast.FuncDecl{}
 	for _, d := range hf.AST.Decls {
-		fd, ok := d.(*ast.FuncDecl)
-		if !ok || fd.Body == nil {
-			continue
+		if fd, ok := d.(*ast.FuncDecl); ok && fd.Body != nil && fd.Recv == nil {
+			top[fd.Name.Name] = fd
 		}
-		ast.Inspect(fd.Body, func(x ast.Node) bool {
-			ce, ok := x.(*ast.CallExpr)
-			if !ok {
-				return true
-			}
-			if sel, isSel := ce.Fun.(*ast.SelectorExpr); isSel && sel.Sel.Name == "Match" &&
-				(strings.Contains(hf.Src(sel.X), "Domains") || fd.Name.Name == "denyDomains") {
-				for _, a := range ce.Args {
-					ast.Inspect(a, func(y ast.Node) bool {
-						if c2, ok := y.(*ast.CallExpr); ok {
-							if id, ok := c2.Fun.(*ast.Ident); ok {
-								helpers[id.Name] = true
-							}
-						}
-						return true
-					})
+	}
+	helpers := map[string]bool{}
+	var visit func(n ast.Node)
+	visit = func(n ast.Node) {
+		ast.Inspect(n, func(y ast.Node) bool {
+			if c2, ok := y.(*ast.CallExpr); ok {
+				if id, ok := c2.Fun.(*ast.Ident); ok {
+					if fd, ok := top[id.Name]; ok && !helpers[id.Name] {
+						helpers[id.Name] = true
+						visit(fd.Body)
+					}
 				}
+			}
+			return true
+		})
+	}
+	for _, name := range []string{"HTTPProxy.denyDomains", "HTTPProxy.directDomains"} {
+		if fd, err := hf.Func(name); err == nil {
+			visit(fd.Body)
+		}
+	}
+	if fd, err := hf.Func("HTTPProxy.configureProxy"); err == nil {
+		ast.Inspect(fd.Body, func(x ast.Node) bool { // the MITMFilter closure
+			if as, ok := x.(*ast.AssignStmt); ok && len(as.Lhs) == 1 && hf.Src(as.Lhs[0]) == "hp.proxy.MITMFilter" {
+				wiring = append(wiring, "MITMFilter: "+hf.Src(as.Rhs[0]))
+				visit(as.Rhs[0])
 			}
 			return true
 		})
@@ -73,6 +81,9 @@ func genG17Wiring(repo string, w *Out) error {
 		if fd, ok := d.(*ast.FuncDecl); ok && fd.Body != nil && fd.Recv == nil && helpers[fd.Name.Name] {
 			wiring = append(wiring, "func "+fd.Name.Name+": "+hf.Src(fd.Body))
 		}
+	}
+	if fd, err := hf.Func("HTTPProxy.directDomains"); err == nil {
+		wiring = append(wiring, "directDomains body: "+hf.Src(fd.Body))
 	}
 	// the whole modifier that consults the deny list
 	if fd, err := hf.Func("HTTPProxy.denyDomains"); err == nil {
@@ -150,5 +161,46 @@ func genG17Wiring(repo string, w *Out) error {
 		wiring = append(wiring, fmt.Sprintf("bind.%s: flag %q parsed by %s", fn, name, parser))
 	}
 	w.DefStrList("wiring", wiring)
+	// which forms of the host name the deny site consults (the model's [site_forms])
+	mf, hasForms := top["matchesAnyForm"]
+	denyBody := ""
+	if fd, err := hf.Func("HTTPProxy.denyDomains"); err == nil {
+		denyBody = hf.Src(fd.Body)
+	}
+	switch {
+	case hasForms && strings.Contains(denyBody, "matchesAnyForm(r, req.URL.Hostname())") &&
+		strings.Contains(hf.Src(mf.Body), `r.Match(strings.TrimSuffix(host, "."))`) && strings.Contains(hf.Src(mf.Body), "r.Match(host)"):
+		w.DefBool("deny_also_without_trailing_dot", true)
+	case strings.Contains(denyBody, "r.Match(req.URL.Hostname())") || strings.Contains(denyBody, "r.Match(h)"):
+		w.DefBool("deny_also_without_trailing_dot", false)
+	default:
+		w.DefBool("deny_also_without_trailing_dot", false)
+		return fmt.Errorf("denyDomains: the name given to Match is not a shape the model knows: %s", denyBody)
+	}
 	return nil
+}
+
+// g17MatcherParam: is x a parameter of fd whose type is Matcher?
+func g17MatcherParam(f *File, fd *ast.FuncDecl, x ast.Expr) bool {
+	id, ok := x.(*ast.Ident)
+	if !ok {
+		return false
+	}
+	check := func(fl *ast.FieldList) bool {
+		if fl == nil {
+			return false
+		}
+		for _, p := range fl.List {
+			if f.Src(p.Type) != "Matcher" {
+				continue
+			}
+			for _, n := range p.Names {
+				if n.Name == id.Name {
+					return true
+				}
+			}
+		}
+		return false
+	}
+	return check(fd.Type.Params)
 }
